@@ -4,7 +4,7 @@
   Every theorem is for ALL valid names (any length, any Unicode scalar values):
   `ValidName n` = not empty, not `.`/`..`, no `/`, NUL, CR, LF, no trailing Python whitespace.
   Where the pinned code violates the property the negation is proved on a concrete witness and the
-  strongest partial theorem is kept (`pwd_roundtrip_partial`, `list_name_roundtrip_partial`).
+  strongest partial theorem is kept (`list_name_roundtrip_partial`); `pwd_roundtrip` is full strength since F4 was repaired.
 -/
 import AioftpModel.Lemmas.Names
 import AioftpModel.Lemmas.ListingErr
@@ -102,49 +102,41 @@ theorem rename_both_sides (base cwd : PPath) (hc : C02.AbsNormal cwd) (a b : Str
 
 /-! ### PWD -/
 
-/-- **pwd_roundtrip_partial.**  For every normal absolute cwd whose names contain no double quote, the
-    client reads back exactly the cwd the server formatted (through reply framing and `parse_line`). -/
-theorem pwd_roundtrip_partial (cwd : PPath) (hc : C02.AbsNormal cwd) (hq : ∀ p ∈ cwd.parts, '"' ∉ p) :
-    pwdSeenByClient cwd = cwd := by
+/-- **pwd_roundtrip** (full strength).  For EVERY normal absolute cwd — names with double quotes, runs of
+    quotes, trailing quotes included — the client reads back exactly the cwd the server formatted (through the
+    quote doubling of `Server.pwd`, reply framing, `parse_line` and the quote automaton of
+    `parse_directory_response`).  Finding F4 (quotes not doubled by the server, quote runs mis-counted by the
+    client) is repaired in /repo 624c00e; whether the server doubles is read off the source. -/
+theorem pwd_roundtrip (cwd : PPath) (hc : C02.AbsNormal cwd) : pwdSeenByClient cwd = cwd := by
   obtain ⟨r, ps⟩ := cwd
   have hr : r = 1 := hc.1
   subst hr
-  exact pwd_roundtrip_noquote ps (fun p hp => (hc.2 p hp).partOK) hq
+  exact pwd_roundtrip_all ps (fun p hp => (hc.2 p hp).partOK)
 
-/-- in the property's words: below any quote-free normal cwd, a valid quote-free name comes back -/
-theorem pwd_roundtrip_partial_name (cwd : PPath) (hc : C02.AbsNormal cwd) (hq : ∀ p ∈ cwd.parts, '"' ∉ p)
-    (n : Str) (hn : ValidName n) (hnq : '"' ∉ n) :
+/-- in the property's words: below any normal cwd, any valid name comes back -/
+theorem pwd_roundtrip_name (cwd : PPath) (hc : C02.AbsNormal cwd) (n : Str) (hn : ValidName n) :
     pwdSeenByClient ⟨1, cwd.parts ++ [n]⟩ = ⟨1, cwd.parts ++ [n]⟩ := by
-  apply pwd_roundtrip_partial
-  · refine ⟨rfl, ?_⟩
-    intro x hx
-    rcases List.mem_append.mp hx with h | h
-    · exact hc.2 x h
-    · simp at h; subst h; exact hn.good
-  · intro p hp
-    rcases List.mem_append.mp hp with h | h
-    · exact hq p h
-    · simp at h; subst h; exact hnq
+  apply pwd_roundtrip
+  refine ⟨rfl, ?_⟩
+  intro x hx
+  rcases List.mem_append.mp hx with h | h
+  · exact hc.2 x h
+  · simp at h; subst h; exact hn.good
 
-/-- **pwd_roundtrip is FALSE on the pinned tree** (finding F4).  The server does not double `"`:
-    cwd `/a"b` is read back as `/a`. -/
-theorem pwd_quote_inner : ValidName "a\"b".toList ∧
-    pwdSeenByClient ⟨1, ["a\"b".toList]⟩ = ⟨1, ["a".toList]⟩ := by decide
+/-- the shapes of finding F4 on the tree as it is now -/
+theorem pwd_quote_shapes_ok : ValidName "a\"b".toList ∧ ValidName "\"".toList ∧
+    pwdSeenByClient ⟨1, ["a\"b".toList]⟩ = ⟨1, ["a\"b".toList]⟩ ∧
+    pwdSeenByClient ⟨1, ["x".toList, "\"".toList]⟩ = ⟨1, ["x".toList, "\"".toList]⟩ ∧
+    pwdSeenByClient ⟨1, ["a\"\"b".toList]⟩ = ⟨1, ["a\"\"b".toList]⟩ ∧
+    parseDirectoryResponse " \"/a\"\"\"".toList = ⟨1, ["a\"".toList]⟩ := by decide
 
-/-- a name consisting of one quote is read back as the parent directory -/
-theorem pwd_quote_only : ValidName "\"".toList ∧
-    pwdSeenByClient ⟨1, ["x".toList, "\"".toList]⟩ = ⟨1, ["x".toList]⟩ := by decide
+/-- **old_pwd_lost_quotes** (what F4's server half was): without the doubling, `/a"b` between quotes is read
+    back as `/a` even by the repaired client -/
+theorem old_pwd_lost_quotes :
+    parseDirectoryResponse (replyRest ['2', '5', '7'] (['"'] ++ PPath.str ⟨1, ["a\"b".toList]⟩ ++ ['"']))
+      = ⟨1, ["a".toList]⟩ := by decide
 
-/-- a doubled quote inside a name is read back as a single one: `/a""b` ↦ `/a"b` -/
-theorem pwd_quote_doubled : ValidName "a\"\"b".toList ∧
-    pwdSeenByClient ⟨1, ["a\"\"b".toList]⟩ = ⟨1, ["a\"b".toList]⟩ := by decide
-
-/-- the client half of the defect, independent of the server: even the RFC 959 spelling of `/a"`
-    (inner quote doubled: `"/a"""`) loses the trailing quote — a closing quote run is never flushed -/
-theorem pwd_quote_trailing :
-    parseDirectoryResponse " \"/a\"\"\"".toList = ⟨1, ["a".toList]⟩ := by decide
-
-/-- …while an inner doubled quote is decoded: `"/a""b"` ↦ `/a"b` -/
+/-- an inner doubled quote is decoded, text after the closing quote is ignored: `"/a""b" created` ↦ `/a"b` -/
 example : parseDirectoryResponse " \"/a\"\"b\" created".toList = ⟨1, ["a\"b".toList]⟩ := by decide
 
 /-! ### MLSD / MLST -/
